@@ -7,13 +7,20 @@ import Mps.SrcPins.SrcDoernerSign
 namespace Mps.Src.SrcDoernerSign
 set_option maxRecDepth 65536
 
+theorem gen_f_round1R : MpsGen.SrcDoernerSign.f_round1R = Mps.SrcPins.SrcDoernerSign.f_round1R := by decide
+theorem gen_f_round1S : MpsGen.SrcDoernerSign.f_round1S = Mps.SrcPins.SrcDoernerSign.f_round1S := by decide
+theorem gen_f_round2R : MpsGen.SrcDoernerSign.f_round2R = Mps.SrcPins.SrcDoernerSign.f_round2R := by decide
+theorem gen_f_round2S : MpsGen.SrcDoernerSign.f_round2S = Mps.SrcPins.SrcDoernerSign.f_round2S := by decide
+theorem gen_f_sign : MpsGen.SrcDoernerSign.f_sign = Mps.SrcPins.SrcDoernerSign.f_sign := by decide
+theorem gen_files : MpsGen.SrcDoernerSign.files = Mps.SrcPins.SrcDoernerSign.files := by decide
+
 theorem gen_source :
     MpsGen.SrcDoernerSign.f_round1R = Mps.SrcPins.SrcDoernerSign.f_round1R ∧
     MpsGen.SrcDoernerSign.f_round1S = Mps.SrcPins.SrcDoernerSign.f_round1S ∧
     MpsGen.SrcDoernerSign.f_round2R = Mps.SrcPins.SrcDoernerSign.f_round2R ∧
     MpsGen.SrcDoernerSign.f_round2S = Mps.SrcPins.SrcDoernerSign.f_round2S ∧
     MpsGen.SrcDoernerSign.f_sign = Mps.SrcPins.SrcDoernerSign.f_sign ∧
-    MpsGen.SrcDoernerSign.files = Mps.SrcPins.SrcDoernerSign.files := by
-  refine ⟨by decide, by decide, by decide, by decide, by decide, by decide⟩
+    MpsGen.SrcDoernerSign.files = Mps.SrcPins.SrcDoernerSign.files :=
+  ⟨gen_f_round1R, gen_f_round1S, gen_f_round2R, gen_f_round2S, gen_f_sign, gen_files⟩
 
 end Mps.Src.SrcDoernerSign
